@@ -305,8 +305,10 @@ def _for_loop(ex,node,d,mode,spec,st,enum=False):
 
 def havoc_loc(ex,loc,st):
   """havoc a heap location named by a dotted path from a local, e.g. 's._dsl.all_upblk_hostobj'."""
-  parts=loc.split('.'); cur=st.env[parts[0]]
-  for p in parts[1:]: cur=st.heap[(cur.id,p)]
+  parts=loc.split('.'); cur=st.env[parts[0]]; owner=None
+  for p in parts[1:]: owner=cur; cur=st.heap[(cur.id,p)]
+  if isinstance(cur,I) and owner is not None:        # an int cell at the end of a dotted path (s.a.b._uint)
+    st.heap[(owner.id,parts[-1])]=I(st.fresh_int(f"{loc}@loop")); return
   if isinstance(cur,Ref) and cur.cls in('set','setlist'):
     st.heap[(cur.id,'arr')]=z3.Const(f"{loc}@loop!{st.nextid[0]}",SetSort); st.nextid[0]+=1
     if st.heap.get((cur.id,'bag')):
